@@ -92,6 +92,9 @@ def settings_extra(s):
 def ws_run(rng, ws, has_comments, has_eol, at_end=False):
     chars = {'default': [' ', '\t', '\n', '\r\n', '  ', '\xa0', '\u2028', '\x0c', '\x1f', '\x85'], r'[ \t]+': [' ', '\t', '  '], r'[ ]+': [' ', '  ']}[ws]
     parts = [rng.choice(chars)]
+    # comments back to back, with nothing between them and nothing before the next lexeme (every fourth run when comments are on)
+    if has_comments and rng.random() < 0.25:
+        return ''.join(parts + ['(* c *)'] * rng.randint(2, 3) + (['# e\n(* d *)'] if has_eol and ws == 'default' and rng.random() < 0.5 else []))
     for _ in range(rng.randint(0, 2)):
         r = rng.random()
         if has_comments and r < 0.3:
